@@ -73,11 +73,8 @@ pub fn check_bytes(b: &[u8]) -> Result<Stats, String> {
         let token = match plain.next() {
             Ok(t) => t,
             Err(e) => {
-                if valid_utf8 {
-                    return Err(format!("next() returned Err({e}) on valid UTF-8 input"));
-                }
-                // invalid UTF-8: an error result is allowed; the stream must still be accounted for
-                TokenType::ErrorToken
+                // tokenisation is total: next() has no failure mode on any byte sequence
+                return Err(format!("next() returned Err({e}) after {} tokens (valid UTF-8 input: {valid_utf8})", plain_tokens.len()));
             }
         };
         kinds |= kind_bit(token);
